@@ -287,7 +287,12 @@ func (g *G) Expr(d int) ast.Expr {
 		case 1:
 			return &ast.SelectorExpr{X: &ast.ParenExpr{X: &ast.StarExpr{X: g.typeName()}}, Sel: g.name()}
 		default:
-			return &ast.CallExpr{Fun: g.Type(d), Args: []ast.Expr{g.Expr(d)}}
+			fun := g.Type(d)
+			if g.cfg.Syntactic && endsInFuncType(fun) {
+				// `[]func()(x)` reads (x) as the result list: valid Go writes ([]func())(x)
+				fun = &ast.ParenExpr{X: fun}
+			}
+			return &ast.CallExpr{Fun: fun, Args: []ast.Expr{g.Expr(d)}}
 		}
 	case 15:
 		if g.cfg.Syntactic {
@@ -321,6 +326,24 @@ func (g *G) Expr(d int) ast.Expr {
 			return &ast.KeyValueExpr{Key: g.Expr(d), Value: g.Expr(d)}
 		}
 	}
+}
+
+// endsInFuncType: a type literal whose rightmost component is a function type (so that a
+// following "(" would be read as part of its signature).
+func endsInFuncType(x ast.Expr) bool {
+	switch t := x.(type) {
+	case *ast.FuncType:
+		return true
+	case *ast.ArrayType:
+		return endsInFuncType(t.Elt)
+	case *ast.MapType:
+		return endsInFuncType(t.Value)
+	case *ast.StarExpr:
+		return endsInFuncType(t.X)
+	case *ast.ChanType:
+		return true // `chan T(x)`, `<-chan T(x)` need the parentheses as well
+	}
+	return false
 }
 
 func precedence(e ast.Expr) int {
